@@ -159,6 +159,8 @@ def must_raise(out, tag, fn, what):
 def execute(ctx, spec):
     import darr
     out = Outcome()
+    if spec.get('fuzz') == 'bytes':
+        return _exec_bytes(ctx, spec)
     if spec.get('fuzz'):
         return _exec_fuzz(ctx, spec)
     kind, corr = spec['kind'], spec['corr']
@@ -242,11 +244,69 @@ def _exec_fuzz(ctx, spec):
         except rawdec.FormatError as e:
             out.viol('opened-invalid-description', 'fuzz', f'Array() accepted a directory the format does not allow: {e}; descriptor={dj}')
             return out
-        got = a[:]
+        got = a[...]
         if np.dtype(got.dtype).str != arr.dtype.str or got.shape != arr.shape or got.tobytes() != arr.tobytes():
             out.viol('opened-reads-differently', 'fuzz', f'handle {got.dtype.str}{got.shape} vs files {arr.dtype.str}{arr.shape}')
         out.cls('fuzz:opened-consistent')
     return out
+
+
+def _exec_bytes(ctx, spec):
+    """Plain replay of an input found by the atheris campaign (raw descriptor bytes)."""
+    import darr
+    out = Outcome()
+    shapes = (((6,), 'int32'), ((2, 3, 2), 'float64'), ((0, 3), 'uint16'))
+    shape, dt = shapes[spec['kind'] % 3]
+    with ctx.scratch() as d:
+        p = os.path.join(d, 'k.darr')
+        darr.asarray(p, (np.arange(int(np.prod(shape)), dtype=dt) * 3 + 1).reshape(shape))
+        vp = os.path.join(p, 'arrayvalues.bin')
+        orig = open(vp, 'rb').read()
+        open(os.path.join(p, 'arraydescription.json'), 'wb').write(bytes.fromhex(spec['desc_hex']))
+        g = spec['grow']
+        open(vp, 'wb').write(orig[:g] if g < 0 else orig + b'\x07' * g)
+        try:
+            a = darr.Array(p)
+        except Exception:
+            out.cls('fuzz:rejected')
+            return out
+        try:
+            arr, _ = rawdec.decode_array(p, require_readme=False, require_object=False)
+        except rawdec.FormatError as e:
+            out.viol('opened-invalid-description', 'fuzz:bytes', f'Array() accepted descriptor bytes {bytes.fromhex(spec["desc_hex"])[:200]!r}: {e}')
+            return out
+        got = a[...]
+        if np.dtype(got.dtype).str != arr.dtype.str or got.shape != arr.shape or got.tobytes() != arr.tobytes():
+            out.viol('opened-reads-differently', 'fuzz:bytes', 'handle reads differently from the files')
+        out.cls('fuzz:opened-consistent')
+    return out
+
+
+def task_atheris(ctx, col, runs):
+    """Coverage-guided campaign on the raw descriptor bytes (thorough tier)."""
+    from vlib.fuzzdrive import run_atheris
+    from vlib.runner import judge
+    import json as _json
+    valid = [_json.dumps({'numtype': t, 'byteorder': 'little', 'shape': sh, 'arrayorder': 'C', 'darrversion': '0.1', 'darrobject': 'Array'}, indent=4).encode()
+             for t, sh in (('int32', [6]), ('float64', [2, 3, 2]), ('uint16', [0, 3]))]
+    seeds = [bytes([i, 9]) + v for i, v in enumerate(valid)]
+    tokens = ['numtype', 'byteorder', 'shape', 'arrayorder', 'darrversion', 'darrobject', 'little', 'big', 'int32', 'float64', 'uint16', 'int8', 'uint8',
+              'float32', 'complex64', '"C"', '"F"', '[', ']', '{', '}', ':', ',', '-', '0', '1', '2', '3', '6', '12', 'null', 'true', '1.0', '1e1', 'Array']
+    r = run_atheris(ctx, 'c18', runs, seeds, tokens, max_len=300)
+    col.counters['atheris_executions'] += r['executed']
+    col.evaluations += r['executed']
+    if not r['available']:
+        col.notes.append(r['note'])
+        col.counters['atheris_unavailable'] += 1
+        return
+    if r['note']:
+        col.notes.append(r['note'])
+    if r['finding']:
+        spec = dict(r['finding'])
+        spec.pop('why', None)
+        out = execute(ctx, spec)
+        for v in judge(ctx, col, spec, out):
+            col.violation(spec, v)
 
 
 def matrix():
@@ -268,4 +328,6 @@ def tasks(ctx):
     for sh in range(NSHARDS):
         t.append((task_matrix, dict(shard=sh)))
         t.append((task_fuzz, dict(shard=sh, n=ctx.pick(800, 4000))))
+    if ctx.thorough:
+        t.append((task_atheris, dict(runs=1500000)))
     return t
